@@ -140,6 +140,22 @@ reg('C15', 'exploration',
     'E4-bounded-exhaustive-enumeration')
 
 
+reg('C19', 'exploration',
+    'Complete enumeration of small collections of particle arrays: for one '
+    'array every combination of presence of dt_cfl/dt_force/dt_visc/'
+    'dt_adapt x 0-2 real particles x 6 value profiles x 3 smoothing '
+    'lengths x optional ghost carrying extreme values x cfl x fixed_h; '
+    'pairs (full x reduced menu, both orders) and triples; the real '
+    'Integrator.compute_time_step and Solver._compute_timestep (fresh and '
+    'in the middle of start-up damping) compared with the formula of the '
+    'statement evaluated independently.',
+    'Trusted: the independent evaluation of the documented formula; '
+    'h.minimum refreshed as NNPS.update_domain does; values outside the '
+    'small lattice are not covered.',
+    'bounded-exhaustive input enumeration against an independent formula',
+    'E4-bounded-exhaustive-enumeration')
+
+
 def main():
     props = [json.loads(l) for l in open(os.path.join(V, 'properties.jsonl'))]
     checks = []
